@@ -1,17 +1,18 @@
 import Adlt.Lc.Pub
 import Adlt.Lc.Spec
+import Adlt.Lc.NoPanic
 /-! # C05 — lifecycle detection forwards every message once, in order, assigned
 
 Statements are about `Lcm.run` (model of `parse_lifecycles_buffered_from_stream`), for **every**
-message list. `hp` excludes only runs that stop at the internal `assert!` of the merge path
-(reachability of that assert is a C03 matter; see DESIGN.md). -/
+message list, without side condition: since the repair of the merge path (fix cf29dd5) the model has no
+reachable assertion any more (`C05_never_stops`). -/
 namespace Props
 open Lcm
 
 /-- every message is delivered exactly once, in the order received, unchanged except for the lifecycle field -/
-theorem C05_once_in_order (ms : List Msg) (hp : (run ms).panicked = false) :
+theorem C05_once_in_order (ms : List Msg) :
     Spec.C05order ms (observe (run ms)) = true := by
-  have h := Lcm.C05_once_in_order ms hp
+  have h := Lcm.C05_once_in_order ms (run_not_panicked ms)
   simp only [Spec.C05order, observe, beq_iff_eq]
   have he : eraseLc = erase := rfl
   simp only [St.outSeq] at h
@@ -23,6 +24,9 @@ theorem C05_assigned_own_ecu (ms : List Msg) : Spec.C06 (observe (run ms)) = tru
   simp only [Spec.C06, observe, List.all_eq_true, List.mem_map, List.mem_reverse]
   rintro x ⟨o, ho, rfl⟩
   exact Lcm.C06_published_first ms o ho
+
+/-- the detector model never stops at an internal assertion, whatever the stream -/
+theorem C05_never_stops (ms : List Msg) : (run ms).panicked = false := run_not_panicked ms
 
 /-- non-vacuity: a concrete two-ECU stream with a reboot that is processed without hitting the assert -/
 example : (run [ { index := 0, recv := 1000000000, ecu := 1, tsDms := 10000, hasTs := true, ctrlReq := false },
